@@ -231,8 +231,7 @@ def run(tier, seed):
         elif want is None:
             if im["kind"] == "OK":
                 bad = f"a missing file was not diagnosed: output {im['bytes']}"
-            elif im["cls"] != "not-found":
-                bad = f"missing file reported as '{im['cls']}': {im['msg'][-80:]}"
+            # (any diagnostic will do: the wording is not part of the property)
         else:
             wh = bytes(want).hex()
             if im["kind"] != "OK":
